@@ -18,6 +18,7 @@ EXPLANATION = ("Necessary shape conditions decided on all paths of the close mac
 EXPLANATION += ' R06.6 also checks that the sweeps (wake_all_streams / is_any_stream_running) are left only at the end of the range (sentinel side) and that the query answers true exactly on a running stream and false after the loop; (R06.7) what flush / close wait for on a Multi: pending_items_count walks the live listeners up to the sentinel (take_while `id != u32::MAX`), reads the queue of the visited id and aggregates with max, in all six Multi channels.'
 EXPLANATION += " (R06.8) the backlog close waits for is what the containers really hold: the rings' length / emptiness queries are the exact wrap-safe forms (C02 R02.2 / R02.5) and the log's published tail never runs ahead of a slot still being written (C09 R09.1 / R09.3)."
 EXPLANATION += ' R06.3 requires close to compare the AWAITED answer of gracefully_end_all_streams with 0; R06.6 requires the Multi pending count to be the maximum of the per-listener lengths with nothing added; (R06.9) no call in the library creates a future and drops it unpolled (a forgotten `.await` silenced by `_ =`).'
+EXPLANATION += " R06.1 also requires every flush of the close path to be handed the caller's timeout itself (ZERO means unbounded: a recomputed remaining budget that saturates at ZERO never returns); R06.5 also imports C10's R10.2 (report_stream_dropped only from drop_resources)."
 ASSUMPTIONS = ["timing is not decided", "'fully processed by the pipeline' relies on the executor dropping the stream only after the pipeline finished: futures' for_each_concurrent drops "
                "the source stream once it is exhausted while item futures may still be in flight -- that gap lives inside the futures crate and is recorded as an undetected limitation"]
 
